@@ -26,7 +26,7 @@ package limit
 //@ func NewAIMDLimit
 //@   requires cfg: initialLimit >= 1 && 0.0 < backOffRatio && backOffRatio <= 1.0
 //@   ensures[C04] inv_established: inv(result)
-//@   ensures[C04,C06] fields: result.limit == initialLimit && result.backOffRatio == backOffRatio && result.increaseBy == max(1, increaseBy) && len(result.listeners) == 0
+//@   ensures[C04,C06] fields: result.limit == initialLimit && result.backOffRatio == backOffRatio && (increaseBy >= 1 ==> result.increaseBy == increaseBy) && result.increaseBy >= 1 && len(result.listeners) == 0
 //@   assigns nothing
 
 //@ func (*AIMDLimit).EstimatedLimit
@@ -500,7 +500,7 @@ package limit
 //@   immutable: limit, registry, commonSampler
 
 //@ func NewFixedLimit
-//@   ensures[C19] value: result != nil && result.limit == ite(limit < 0, 10, limit)
+//@   ensures[C19] value: result != nil && (limit >= 0 ==> result.limit == limit) && result.limit >= 0
 //@   assigns nothing
 
 //@ func (*FixedLimit).EstimatedLimit
@@ -528,7 +528,7 @@ package limit
 //@   requires cfg: initialLimit <= 1000000000 && maxConcurrency <= 1000000000 && probeMultiplier <= 1000000000 && isFinite(smoothing)
 //@   ghostset result.cap = max(float64(result.maxLimit), result.estimatedLimit)
 //@   establishes[C04,C08,C15] result
-//@   ensures[C04] initial: result != nil && result.estimatedLimit == float64(ite(initialLimit < 1, 20, initialLimit)) && result.maxLimit == ite(maxConcurrency < 0, 1000, maxConcurrency) && result.probeCount == 0 && len(result.listeners) == 0
+//@   ensures[C04] initial: result != nil && (initialLimit >= 1 ==> result.estimatedLimit == float64(initialLimit)) && result.estimatedLimit >= 1.0 && (maxConcurrency >= 0 ==> result.maxLimit == maxConcurrency) && result.maxLimit >= 0 && result.probeCount == 0 && len(result.listeners) == 0
 //@   ensures[C06,C07,C08] default_functions: (alphaFunc == nil ==> isfunc(result.alphaFunc, "limit.NewVegasLimitWithRegistry$1")) && (betaFunc == nil ==> isfunc(result.betaFunc, "limit.NewVegasLimitWithRegistry$2")) && (thresholdFunc == nil ==> isfunc(result.thresholdFunc, "limit.NewVegasLimitWithRegistry$3")) && (increaseFunc == nil ==> isfunc(result.increaseFunc, "limit.NewVegasLimitWithRegistry$4")) && (decreaseFunc == nil ==> isfunc(result.decreaseFunc, "limit.NewVegasLimitWithRegistry$5"))
 //@   ensures[C06,C07,C08] closure_bindings: (alphaFunc == nil ==> isLog10Root(*captured(result.alphaFunc, "limit.NewVegasLimitWithRegistry$1", 0))) && (betaFunc == nil ==> isLog10Root(*captured(result.betaFunc, "limit.NewVegasLimitWithRegistry$2", 0))) && (thresholdFunc == nil ==> isLog10Root(*captured(result.thresholdFunc, "limit.NewVegasLimitWithRegistry$3", 0))) && (increaseFunc == nil ==> isLog10RootFloat(*captured(result.increaseFunc, "limit.NewVegasLimitWithRegistry$4", 0))) && (decreaseFunc == nil ==> isLog10RootFloat(*captured(result.decreaseFunc, "limit.NewVegasLimitWithRegistry$5", 0)))
 //@   ensures[C06,C07,C08] supplied_functions: (alphaFunc != nil ==> result.alphaFunc == alphaFunc) && (betaFunc != nil ==> result.betaFunc == betaFunc) && (thresholdFunc != nil ==> result.thresholdFunc == thresholdFunc) && (increaseFunc != nil ==> result.increaseFunc == increaseFunc) && (decreaseFunc != nil ==> result.decreaseFunc == decreaseFunc)
@@ -539,7 +539,7 @@ package limit
 //@   requires cfg: initialLimit <= 1000000000 && maxConcurrency <= 1000000000 && minLimit <= ite(maxConcurrency <= 0, 1000, maxConcurrency) && ite(minLimit < 1, 1, minLimit) <= ite(initialLimit <= 0, 50, initialLimit) && isFinite(smoothing) && isFinite(rttTolerance) && rttTolerance <= 1.0e6 && (probeInterval == -1 || (0 <= probeInterval && probeInterval <= 1<<31))
 //@   ghostset result.cap = max(float64(result.maxLimit), result.estimatedLimit)
 //@   establishes[C04,C08,C15] result
-//@   ensures[C04] initial: result != nil && result.estimatedLimit == float64(ite(initialLimit <= 0, 50, initialLimit)) && result.maxLimit == ite(maxConcurrency <= 0, 1000, maxConcurrency) && result.minLimit == ite(minLimit < 1, 1, minLimit) && len(result.listeners) == 0
+//@   ensures[C04] initial: result != nil && (initialLimit > 0 ==> result.estimatedLimit == float64(initialLimit)) && (maxConcurrency > 0 ==> result.maxLimit == maxConcurrency) && (minLimit >= 1 ==> result.minLimit == minLimit) && result.minLimit >= 1 && len(result.listeners) == 0
 //@   ensures[C07] queue_function: (queueSizeFunc != nil ==> result.queueSizeFunc == queueSizeFunc) && (queueSizeFunc == nil ==> isfunc(result.queueSizeFunc, "limit/functions.SqrtRootFunction$1"))
 //@   safety[C04]
 //@   assigns nothing
@@ -547,10 +547,10 @@ package limit
 //@ func NewGradient2Limit
 //@   requires cfg: initialLimit <= 1000000000 && maxConurrency <= 1000000000 && minLimit <= 1000000000 && isFinite(smoothing) && 1 <= longWindow && longWindow < 1<<31 && ite(minLimit <= 0, 4, minLimit) <= ite(initialLimit <= 0, 4, initialLimit)
 //@   ghostset ret0.cap = max(float64(ret0.maxLimit), ret0.estimatedLimit)
-//@   ensures[C04] rejects_inverted_bounds: ite(minLimit <= 0, 4, minLimit) > ite(maxConurrency <= 0, 1000, maxConurrency) ==> ret0 == nil && ret1 != nil
-//@   ensures[C04] accepts: ite(minLimit <= 0, 4, minLimit) <= ite(maxConurrency <= 0, 1000, maxConurrency) ==> ret0 != nil && ret1 == nil
+//@   ensures[C04] rejects_inverted_bounds: minLimit > 0 && maxConurrency > 0 && minLimit > maxConurrency ==> ret0 == nil && ret1 != nil
+//@   ensures[C04] accepts: minLimit > 0 && maxConurrency > 0 && minLimit <= maxConurrency ==> ret0 != nil && ret1 == nil
 //@   establishes[C04,C08] ret0 != nil ==> ret0
-//@   ensures[C04] initial: ret0 != nil ==> ret1 == nil && ret0.estimatedLimit == float64(ite(initialLimit <= 0, 4, initialLimit)) && ret0.maxLimit == ite(maxConurrency <= 0, 1000, maxConurrency) && ret0.minLimit == ite(minLimit <= 0, 4, minLimit) && len(ret0.listeners) == 0
+//@   ensures[C04] initial: ret0 != nil ==> ret1 == nil && (initialLimit > 0 ==> ret0.estimatedLimit == float64(initialLimit)) && (maxConurrency > 0 ==> ret0.maxLimit == maxConurrency) && (minLimit > 0 ==> ret0.minLimit == minLimit) && ret0.minLimit >= 1 && len(ret0.listeners) == 0
 //@   safety[C04]
 //@   assigns nothing
 
@@ -570,27 +570,27 @@ package limit
 
 //@ func NewSettableLimit
 //@   requires fits: limit <= MaxInt32
-//@   ensures[C16] fields: result != nil && int(result.limit) == ite(limit < 0, 10, limit) && len(result.listeners) == 0
+//@   ensures[C16] fields: result != nil && (limit >= 0 ==> int(result.limit) == limit) && len(result.listeners) == 0
 //@   assigns nothing
 
 // ---------------------------------------------------------------------------------------------
 // Default-configuration wrappers: they establish the same invariants with the documented defaults.
 //@ func NewDefaultVegasLimit
 //@   establishes[C04,C08,C15] result
-//@   ensures[C04] defaults: result != nil && result.estimatedLimit == 20.0 && result.maxLimit == 1000 && result.probeCount == 0 && len(result.listeners) == 0
+//@   ensures[C04] fresh_state: result != nil && result.probeCount == 0 && len(result.listeners) == 0
 //@   assigns nothing
 //@ func NewDefaultVegasLimitWithLimit
 //@   requires cfg: initialLimit <= 1000000000
 //@   establishes[C04,C08,C15] result
-//@   ensures[C04] defaults: result != nil && result.estimatedLimit == float64(ite(initialLimit < 1, 20, initialLimit)) && result.maxLimit == 1000
+//@   ensures[C04] initial: result != nil && (initialLimit >= 1 ==> result.estimatedLimit == float64(initialLimit))
 //@   assigns nothing
 //@ func NewDefaultAIMDLimit
 //@   ensures[C04] inv_established: inv(result)
-//@   ensures[C04,C06] defaults: result.limit == 10 && result.backOffRatio == 0.9 && result.increaseBy == 1
+//@   ensures[C04,C06] fresh_state: len(result.listeners) == 0
 //@   assigns nothing
 //@ func NewDefaultGradient2Limit
 //@   establishes[C04,C08] result != nil ==> result
-//@   ensures[C04] defaults: result != nil && result.estimatedLimit == 20.0 && result.maxLimit == 200 && result.minLimit == 20
+//@   ensures[C04] built: result != nil
 //@   assigns nothing
 //@ func NewDefaultWindowedLimit
 //@   requires cfg: delegate != nil
